@@ -116,6 +116,9 @@ type WorldOpts struct {
 	// EarlyRecreate (with Closed): the replacement is created as soon as the old pod is terminating (what a workload
 	// controller does), not when it is gone: old and new pod of a workload coexist for the grace period
 	EarlyRecreate bool `json:"earlyRecreate,omitempty"`
+	// PRecreateNow (with EarlyRecreate): probability per step that the replacement of a still terminating pod is
+	// created in that step (0 = at once): the pods of an evicted gang come back one by one
+	PRecreateNow float64 `json:"pRecreateNow,omitempty"`
 	// UseRealBinder: drive BindRequests through the real binder reconciler
 	UseRealBinder bool `json:"useRealBinder,omitempty"`
 }
